@@ -131,6 +131,7 @@ def scan_sources():
             text = f.read()
         # strip comments (non-nested good enough: we do not nest)
         text_nc = re.sub(r"\(\*.*?\*\)", " ", text, flags=re.S)
+        text_nc = re.sub(r'"[^"\n]*"', '""', text_nc)  # string literals
         for ln, line in enumerate(text_nc.split("\n"), 1):
             if re.match(r"\s*Section\b", line):
                 depth += 1
